@@ -94,8 +94,10 @@ def prove (disableProxy : Bool) (hdrFail : List Nat) (first last E h : Nat) (sub
         (fetch ++ [.submit (!disableProxy) first n] ++ (polls.take r.1).map .epoch, r.2, 1, r.1)
   else ([], .idle, 0, 0)
 
-/-- `proveNextEpoch` on the world. -/
-def proveNext (dp : Bool) (w : World) : List Ev × Outcome × World :=
+/-- `proveNextEpoch` on the world.  The window and target functions are parameters (`win`,
+`tgt`): the real code is the instance `window`, `target`; the history theorems hold for every
+instance, so no proof ever has to reduce the `% 2^64` arithmetic. -/
+def proveNext (win : Nat → Nat → Nat × Nat) (tgt : Nat → Nat) (dp : Bool) (w : World) : List Ev × Outcome × World :=
   match w.heights with
   | [] => ([], .fin, w)
   | none :: hs => ([.height none], .err, { w with heights := hs })
@@ -108,19 +110,19 @@ def proveNext (dp : Bool) (w : World) : List Ev × Outcome × World :=
       | [] => ([.height (some h), .epoch (some ce)], .fin, { w with heights := hs, epochs := es })
       | none :: ls => ([.height (some h), .epoch (some ce), .len none], .err, { w with heights := hs, epochs := es, lens := ls })
       | some L :: ls =>
-        let r := prove dp w.hdrFail (window ce L).1 (window ce L).2 (target ce) h w.submits.head? es
+        let r := prove dp w.hdrFail (win ce L).1 (win ce L).2 (tgt ce) h w.submits.head? es
         ([.height (some h), .epoch (some ce), .len (some L)] ++ r.1, r.2.1,
           { w with heights := hs, epochs := es.drop r.2.2.2, lens := ls,
                    submits := w.submits.drop r.2.2.1 })
 
 /-- the `for` loop of `proveEpochs` (fuel ≥ number of height answers + 1 is enough). -/
-def proveLoop (dp : Bool) : Nat → World → List Ev × Outcome × World
+def proveLoop (win : Nat → Nat → Nat × Nat) (tgt : Nat → Nat) (dp : Bool) : Nat → World → List Ev × Outcome × World
   | 0, w => ([], .fin, w)
   | fuel + 1, w =>
-    let r := proveNext dp w
+    let r := proveNext win tgt dp w
     match r.2.1 with
     | .proven | .idle =>
-      let r2 := proveLoop dp fuel r.2.2
+      let r2 := proveLoop win tgt dp fuel r.2.2
       (r.1 ++ r2.1, r2.2.1, r2.2.2)
     | o => (r.1, o, r.2.2)
 
@@ -143,20 +145,20 @@ def verify (dp : Bool) (w : World) : List Ev × Option SessResult × World :=
     | .t :: as => ([.ready .t, authEv dp .t], none, { w with ready := rs, auth := as })
 
 /-- `proveEpochs` once. -/
-def session (dp : Bool) (fuel : Nat) (w : World) : List Ev × SessResult × World :=
+def session (win : Nat → Nat → Nat × Nat) (tgt : Nat → Nat) (dp : Bool) (fuel : Nat) (w : World) : List Ev × SessResult × World :=
   let v := verify dp w
   match v.2.1 with
   | some r => (v.1, r, v.2.2)
   | none =>
-    let l := proveLoop dp fuel v.2.2
+    let l := proveLoop win tgt dp fuel v.2.2
     (v.1 ++ l.1, (if l.2.1 = .fin then .fin else .error), l.2.2)
 
 /-- `startControlLoop`: sessions until the history is over. -/
-def controlLoop (dp : Bool) (fuel : Nat) : Nat → World → List Ev
+def controlLoop (win : Nat → Nat → Nat × Nat) (tgt : Nat → Nat) (dp : Bool) (fuel : Nat) : Nat → World → List Ev
   | 0, _ => []
   | k + 1, w =>
-    let s := session dp fuel w
-    if s.2.1 = .fin then s.1 else s.1 ++ controlLoop dp fuel k s.2.2
+    let s := session win tgt dp fuel w
+    if s.2.1 = .fin then s.1 else s.1 ++ controlLoop win tgt dp fuel k s.2.2
 
 /-! ## Monitor (the property as a predicate on the observed call list)
 
@@ -188,15 +190,17 @@ def clearPending : Option Nat → Option Nat → Option Nat
   | some E, some x => if x ≥ E then none else some E
   | p, _ => p
 
-def submitGood (dp : Bool) (s : MonState) (refund : Bool) (first count : Nat) : Bool :=
+def submitGood (win : Nat → Nat → Nat × Nat) (tgt : Nat → Nat) (dp : Bool) (s : MonState) (refund : Bool) (first count : Nat) : Bool :=
   match s.h, s.ce, s.L with
   | some h, some ce, some L =>
-    s.eligible && decide (refund = !dp) && decide (count = headerCount (window ce L).1 (window ce L).2)
-      && (decide (count = 0) || decide (first = (window ce L).1))
-      && decide (h ≥ (window ce L).2) && decide (s.k = 1)
+    -- Bool-valued comparisons (`==`, `Nat.ble`) on purpose: no `Decidable` instance over the
+    -- wrap-around arithmetic has to be evaluated in proofs
+    s.eligible && (refund == !dp) && (count == headerCount (win ce L).1 (win ce L).2)
+      && ((count == 0) || (first == (win ce L).1))
+      && Nat.ble (win ce L).2 h && (s.k == 1)
   | _, _, _ => false
 
-def monStep (dp : Bool) (s : MonState) (e : Ev) : MonState :=
+def monStep (win : Nat → Nat → Nat × Nat) (tgt : Nat → Nat) (dp : Bool) (s : MonState) (e : Ev) : MonState :=
   match e with
   | .ready a =>
     { s with readyOk := decide (a = .t), eligible := false, h := none, ce := none, L := none, k := 0,
@@ -214,10 +218,10 @@ def monStep (dp : Bool) (s : MonState) (e : Ev) : MonState :=
   | .len v => { s with L := v }
   | .fetch _ _ => s
   | .submit refund first count =>
-    { s with ok := s.ok && submitGood dp s refund first count, h := none, pending := s.ce.map target }
+    { s with ok := s.ok && submitGood win tgt dp s refund first count, h := none, pending := s.ce.map tgt }
 
-def run (dp : Bool) (s : MonState) (evs : List Ev) : MonState := evs.foldl (monStep dp) s
+def run (win : Nat → Nat → Nat × Nat) (tgt : Nat → Nat) (dp : Bool) (s : MonState) (evs : List Ev) : MonState := evs.foldl (monStep win tgt dp) s
 
-def holds (dp : Bool) (evs : List Ev) : Bool := (run dp {} evs).ok
+def holds (win : Nat → Nat → Nat × Nat) (tgt : Nat → Nat) (dp : Bool) (evs : List Ev) : Bool := (run win tgt dp {} evs).ok
 
 end KeepVerif.C43
